@@ -87,6 +87,22 @@ structure Meta where
 /-- The document without its seal: everything `metadata_auth_aad` is supposed to cover. -/
 def Meta.unsealed (m : Meta) : Meta := { m with authNonce := none, authTag := none }
 
+/-- Lengths and integers fit their `u64` encodings (true of every value a 64-bit process can hold). -/
+def optFits : Option Bytes → Bool
+  | none => true
+  | some b => decide (b.length < U64)
+
+def optNatFits : Option Nat → Bool
+  | none => true
+  | some n => decide (n < U64)
+
+/-- Well-formedness of `(location, document)` as far as the AAD encoders care. -/
+def Meta.fits (loc : Bytes) (m : Meta) : Bool :=
+  decide (loc.length < U64) && decide (m.size < U64) && optFits m.eTag && optFits m.originalTag &&
+  optFits m.originalVersion && decide (m.aesNonce.length < U64) && decide (m.aesTags.length < U64) &&
+  m.aesTags.all (fun t => decide (t.length < U64)) && optNatFits m.chunkSize &&
+  optFits m.generation && optNatFits m.committedAtMs
+
 /-- Value of a field, by type class. -/
 inductive Val
   | bytes (b : Bytes)
@@ -586,8 +602,9 @@ def getRanges (A : AEAD) (strict : Bool) (storeChunk : Nat) (B : Backend) (loc :
         | none => .error .notFound
         | some payload => getRangesLoop A m (readChunkSize storeChunk m) payload ranges ⟨0, 0, []⟩ []
 
-/-- `head` / a listing entry: `(size, e_tag, generation, committed_at_ms)` of the verified document. -/
-def headObject (A : AEAD) (strict : Bool) (B : Backend) (loc : Bytes) :
+/-- A listing entry (`listing_entry` + the verifying policy): `(size, e_tag, committed_at_ms)` of the
+verified document; the payload object is not touched. -/
+def listEntry (A : AEAD) (strict : Bool) (B : Backend) (loc : Bytes) :
     Except RErr (Nat × Option Bytes × Option Nat) :=
   match B.metaDoc loc with
   | .error e => .error e
@@ -595,6 +612,20 @@ def headObject (A : AEAD) (strict : Bool) (B : Backend) (loc : Bytes) :
     match verifyMetadata A strict loc m with
     | .error e => .error e
     | .ok _ => .ok (m.size, m.eTag, m.committedAtMs)
+
+/-- `head` = `get_opts` with `head = true`: the same values, but the payload object the document points
+at must exist (the backend is asked for it with `head`). -/
+def headObject (A : AEAD) (strict : Bool) (B : Backend) (loc : Bytes) :
+    Except RErr (Nat × Option Bytes × Option Nat) :=
+  match B.metaDoc loc with
+  | .error e => .error e
+  | .ok m =>
+    match verifyMetadata A strict loc m with
+    | .error e => .error e
+    | .ok _ =>
+      match B.payload loc m.generation with
+      | none => .error .notFound
+      | some _ => .ok (m.size, m.eTag, m.committedAtMs)
 
 /-! ## An executable ideal AEAD (used by the driver and by the non-vacuity examples)
 
@@ -606,5 +637,25 @@ def encodeList (xs : List Bytes) : Bytes := (xs.map pushBytes).flatten
 def toyAEAD : AEAD where
   enc n a p := (p, encodeList [n, a, p])
   dec n a ct t := if t = encodeList [n, a, ct] then some ct else none
+
+/-- What an attacker without the key can put into the backend: a document without seal, chunk-AAD
+version and generation that describes an empty object, and an empty legacy payload (`data/<loc>`). -/
+def forgedLegacyDoc : Meta :=
+  { size := 0, eTag := none, originalTag := none, originalVersion := none,
+    aesNonce := [0, 0, 0, 0, 0, 0, 0, 0, 0, 0, 0, 0], aesTags := [], chunkSize := none,
+    chunkAadVersion := none, authNonce := none, authTag := none, generation := none,
+    committedAtMs := none }
+
+def forgedBackend : Backend :=
+  { metaDoc := fun _ => .ok forgedLegacyDoc, payload := fun _ g => if g = none then some [] else none }
+
+def toyFreshEx : Fresh := ⟨[1, 2, 3, 4, 5, 6, 7, 8, 9, 10, 11, 12], [9, 9, 9, 9, 9, 9, 9, 9, 9, 9, 9, 9], [103], 7, [101]⟩
+
+/-- A small sealed-shape document used by non-vacuity examples. -/
+def exampleMeta : Meta :=
+  { size := 3, eTag := some [1], originalTag := none, originalVersion := none,
+    aesNonce := [0, 0, 0, 0, 0, 0, 0, 0, 0, 0, 0, 0], aesTags := [[7]], chunkSize := some 16,
+    chunkAadVersion := some 1, authNonce := none, authTag := none, generation := some [103],
+    committedAtMs := some 5 }
 
 end AndaVerif.Enc
